@@ -619,6 +619,13 @@ fn merge_so_instance_type(
         (Some(SingleOrVec::Single(aa)), Some(SingleOrVec::Single(bb))) => {
             if aa == bb {
                 Ok(Some(SingleOrVec::Single(aa.clone())))
+            } else if matches!(
+                (aa.as_ref(), bb.as_ref()),
+                (InstanceType::Integer, InstanceType::Number)
+                    | (InstanceType::Number, InstanceType::Integer)
+            ) {
+                // Every integer is a number.
+                Ok(Some(SingleOrVec::Single(Box::new(InstanceType::Integer))))
             } else {
                 Err(())
             }
